@@ -382,6 +382,28 @@ fn sm_apply(a: &mut BinArchive, ev: &Value) -> (Value, i64) {
         "write_label" => (unit_of(a.write_label(addr, &s_of(bs))), 0),
         "write_labels" => (unit_of(a.write_labels(addr, bs.as_array().unwrap().iter().map(|x| s_of(x)).collect())), 0),
         "delete_labels" => (unit_of(a.delete_labels(addr)), 0),
+        "delete_label" => (unit_of(a.delete_label(addr, n)), 0),
+        "get_labels" => (
+            res_val(Value::Array(a.get_labels().iter().map(|(ad, nm)| json!([from_usize(*ad), sj_json(nm)])).collect())),
+            0,
+        ),
+        "find_label" => (
+            match a.find_label_address(&s_of(bs)) {
+                Some(ad) => res_val(json!([from_usize(ad)])),
+                None => res_unit(),
+            },
+            0,
+        ),
+        "pointer_destinations" => {
+            let mut d: Vec<usize> = a.pointer_destinations().into_iter().collect();
+            d.sort();
+            (res_val(Value::Array(d.iter().map(|x| json!(from_usize(*x))).collect())), 0)
+        }
+        "s_read_label" => {
+            let mut rd = BinArchiveReader::new(a, addr);
+            let r = opt_of(rd.read_label(n).map(|o| o.map(|s| sj_json(&s))));
+            (r, from_usize(rd.tell()))
+        }
         // ---- streams: created at the cursor, one call, tell()
         "s_allocate" => {
             let mut w = BinArchiveWriter::new(a, addr);
@@ -645,7 +667,14 @@ fn random_event(rng: &mut Rng, p: &Value, focus: &str) -> Value {
                 None => ev("read_pointer", addr(rng), 0, false, json!([]), 0, ""),
             },
             90..=93 => ev(&pre("write_label"), addr(rng), 0, false, name(rng), 0, ""),
-            94..=96 => ev(&pre("delete_string"), addr(rng), 0, false, json!([]), 0, ""),
+            94..=95 => ev(&pre("delete_string"), addr(rng), 0, false, json!([]), 0, ""),
+            96 => ev("delete_label", addr(rng), rng.below(3) as i64, false, json!([]), 0, ""),
+            97 => ev("s_read_label", addr(rng), rng.below(3) as i64, false, json!([]), 0, ""),
+            98 => match rng.below(3) {
+                0 => ev("get_labels", 0, 0, false, json!([]), 0, ""),
+                1 => ev("pointer_destinations", 0, 0, false, json!([]), 0, ""),
+                _ => ev("find_label", 0, 0, false, name(rng), 0, ""),
+            },
             _ => ev(&pre("delete_pointer"), addr(rng), 0, false, json!([]), 0, ""),
         }
     }
